@@ -17,11 +17,13 @@ import (
 
 	"github.com/spf13/viper"
 
+	"github.com/dappledger/AnnChain/gemmill"
 	"github.com/dappledger/AnnChain/gemmill/archive"
 	bc "github.com/dappledger/AnnChain/gemmill/blockchain"
 	"github.com/dappledger/AnnChain/gemmill/consensus/pbft"
 	crypto "github.com/dappledger/AnnChain/gemmill/go-crypto"
 	"github.com/dappledger/AnnChain/gemmill/go-wire"
+	"github.com/dappledger/AnnChain/gemmill/mempool"
 	dbm "github.com/dappledger/AnnChain/gemmill/modules/go-db"
 	"github.com/dappledger/AnnChain/gemmill/p2p"
 	sm "github.com/dappledger/AnnChain/gemmill/state"
@@ -107,8 +109,13 @@ func newSwitch(name string, idx int, key crypto.PrivKeyEd25519) *p2p.Switch {
 	return sw
 }
 
-// newSyncNode assembles the syncing node the way angine.assembleStateMachine
-// does for the pbft engine (verifier and executer closures copied verbatim).
+// newSyncNode: the syncing node is assembled by the repository's own
+// Angine.assembleStateMachine (through the build-tagged wrapper gemmill.VerifAssemble):
+// block store, BlockchainReactor with its verifier and executer closures, pbft
+// ConsensusState and reactor, mempool and reactor are those of a real node.  The
+// harness supplies the databases (in memory), the p2p switch, a non-validator key, the
+// event switch with its toy application, and afterwards replaces the IBlockExecutable
+// (the Angine with its plugins) by the toy executor that the source chain was built with.
 func newSyncNode(c *chain, walDir string) (*syncNode, error) {
 	n := &syncNode{switched: make(chan struct{}, 1)}
 	n.stateDB = dbm.NewMemDB()
@@ -116,31 +123,25 @@ func newSyncNode(c *chain, walDir string) (*syncNode, error) {
 	stateM.Save()
 	conf := pbftConf(walDir)
 	conf.Set("chain_id", stateM.ChainID)
-	blockStore := bc.NewBlockStore(dbm.NewMemDB(), dbm.NewMemDB())
-	_, stateLastHeight, _ := stateM.GetLastBlockInfo()
-	bcReactor := bc.NewBlockchainReactor(conf, stateLastHeight, blockStore, true, &archive.Archive{})
-	txPool := nopPool{}
-	consensusState := pbft.NewConsensusState(conf, stateM, blockStore, txPool)
-	if consensusState == nil {
-		return nil, fmt.Errorf("NewConsensusState returned nil")
-	}
+	conf.Set("fast_sync", true)
+	conf.Set("pex_reactor", false)
+	conf.Set("auth_by_ca", false)
+	conf.Set("mempool_recheck", false)
 	eventSwitch := types.NewEventSwitch()
 	eventSwitch.Start()
-	bcReactor.SetEventSwitch(eventSwitch)
-
-	bcReactor.SetBlockVerifier(func(bID types.BlockID, h int64, lc *types.Commit) error {
-		return stateM.Validators.VerifyCommit(stateM.ChainID, bID, h, lc)
-	})
-	bcReactor.SetBlockExecuter(func(blk *types.Block, pst *types.PartSet, c *types.Commit) error {
-		blockStore.SaveBlock(blk, pst, c)
-		if err := stateM.ApplyBlock(eventSwitch, blk, pst.Header(), txPool, -1); err != nil {
-			return err
-		}
-		stateM.Save()
-		return nil
-	})
+	pv, err := types.GenPrivValidator("", crypto.GenPrivKeyEd25519FromSecret([]byte("c13-node-sync-validator-key")))
+	if err != nil {
+		return nil, fmt.Errorf("GenPrivValidator: %v", err)
+	}
+	n.sw = newSwitch("syncing", 0, crypto.GenPrivKeyEd25519FromSecret([]byte("c13-node-sync")))
+	dbs := map[string]dbm.DB{"state": n.stateDB, "blockstore": dbm.NewMemDB(), "archive": dbm.NewMemDB()}
+	ang := gemmill.VerifAssemble(conf, stateM, pv, n.sw, &eventSwitch, dbs, nil, &archive.Archive{})
+	blockStore := ang.VerifBlockStore()
+	bcReactor, ok := n.sw.Reactor("BLOCKCHAIN").(*bc.BlockchainReactor)
+	if !ok || blockStore == nil {
+		return nil, fmt.Errorf("assembleStateMachine did not install a BlockchainReactor / block store")
+	}
 	stateM.SetBlockExecutable(executor{})
-	stateM.SetBlockVerifier(consensusState)
 
 	n.app = &app{}
 	n.app.install(eventSwitch)
@@ -151,8 +152,6 @@ func newSyncNode(c *chain, walDir string) (*syncNode, error) {
 		}
 	})
 	n.st, n.store, n.evsw, n.bcR = stateM, blockStore, eventSwitch, bcReactor
-	n.sw = newSwitch("syncing", 0, crypto.GenPrivKeyEd25519FromSecret([]byte("c13-node-sync")))
-	n.sw.AddReactor("BLOCKCHAIN", bcReactor)
 	return n, nil
 }
 
@@ -195,6 +194,21 @@ func (r *scriptReactor) Receive(chID byte, src *p2p.Peer, msgBytes []byte) {
 		r.w.onStatusRequest(r.sp)
 	}
 }
+
+// sinkReactor: the syncing node is a complete node, its consensus and mempool reactors talk
+// to every peer; the scripted peers accept those channels and ignore what arrives.
+type sinkReactor struct{ p2p.BaseReactor }
+
+func (r *sinkReactor) GetChannels() []*p2p.ChannelDescriptor {
+	var ds []*p2p.ChannelDescriptor
+	for _, id := range []byte{pbft.StateChannel, pbft.DataChannel, pbft.VoteChannel, pbft.VoteSetBitsChannel, mempool.MempoolChannel} {
+		ds = append(ds, &p2p.ChannelDescriptor{ID: id, Priority: 1, SendQueueCapacity: 100})
+	}
+	return ds
+}
+func (r *sinkReactor) AddPeer(*p2p.Peer)                 {}
+func (r *sinkReactor) RemovePeer(*p2p.Peer, interface{}) {}
+func (r *sinkReactor) Receive(byte, *p2p.Peer, []byte)   {}
 
 type held struct {
 	sp    *speer
@@ -733,6 +747,9 @@ func runScenario(sc *scenario, dir string, out *os.File) *result {
 		r := &scriptReactor{w: w, sp: sp}
 		r.BaseReactor = *p2p.NewBaseReactor("script-"+sp.name, r)
 		sp.sw.AddReactor("BLOCKCHAIN", r)
+		sink := &sinkReactor{}
+		sink.BaseReactor = *p2p.NewBaseReactor("sink-"+sp.name, sink)
+		sp.sw.AddReactor("SINK", sink)
 		if _, err := sp.sw.Start(); err != nil {
 			core.Fatal("cannot start switch: %v", err)
 		}
